@@ -536,14 +536,15 @@ class CorrelationFunction(DFunction, UnitsManaged):
         t2 = other.axis
         if t1 == t2:
             
+            # refuse before anything is changed
+            if self.temperature != other.temperature:
+                raise Exception("Cannot add two correlation functions on different temperatures")
+    
             self.data += other.data
             self.lamb += other.lamb  # reorganization energy is additive
             if other.cutoff_time > self.cutoff_time: 
                 self.cutoff_time = other.cutoff_time  
                 
-            if self.temperature != other.temperature:
-                raise Exception("Cannot add two correlation functions on different temperatures")
-    
             for p in other.params:
                 self.params.append(p)
                 
@@ -571,14 +572,15 @@ class CorrelationFunction(DFunction, UnitsManaged):
         t2 = ocor.axis
         if t1 == t2:
             
+            # refuse before anything is changed
+            if self.temperature != ocor.temperature:
+                raise Exception("Cannot add two correlation functions on different temperatures")
+    
             self.data += ocor.data
             self.lamb += ocor.lamb  # reorganization energy is additive
             if ocor.cutoff_time > self.cutoff_time: 
                 self.cutoff_time = ocor.cutoff_time  
                 
-            if self.temperature != ocor.temperature:
-                raise Exception("Cannot add two correlation functions on different temperatures")
-    
 
             for p in ocor.params:
                 self.params.append(p)
